@@ -82,6 +82,11 @@ Inductive ev :=
 | EUp | EDown | EClose
 | EGC                                      (* runtime.GC twice: finalisers of the autodraining queues *)
 | ETun (pkts : list tpkt)                  (* packets queued together on the TUN *)
+| ETunErr (pkts : list tpkt)
+    (* the same, but every read that returns these packets ALSO returns tun.ErrTooManySegments: the packets are
+       processed as usual, the error is only logged *)
+| EFatalRead
+    (* the TUN read fails for good: the reader starts Device.Close and leaves, releasing what it holds *)
 | ENet (ds : list dgram)                   (* datagrams queued together on the bind *)
 | ESetNonce (j : N) (v : N)                (* hook: send counter of peer j's current keypair *)
 | EExpire (j : N).                         (* hook: peer j's keypairs become older than RejectAfterTime *)
@@ -384,7 +389,15 @@ Definition step_state (s : state) (e : ev) : state :=
       {| s_cfg := s_cfg s; s_up := false; s_closed := true; s_peers := [];
          s_acc := put (vout (dev_batch (s_cfg s)) 0) (snd pa) |}
   | EGC => s
+  | EFatalRead =>
+      (* tun.Close: the reader releases its elements and buffers; downLocked; RemoveAllPeers *)
+      let a0 := if s_up s then put (vbuf (recv_bufs (s_cfg s))) (s_acc s) else s_acc s in
+      let pa := stop_all (s_peers s) a0 in
+      {| s_cfg := s_cfg s; s_up := false; s_closed := true; s_peers := [];
+         s_acc := put (vout (dev_batch (s_cfg s)) 0) (snd pa) |}
   | ETun pkts =>
+      with_pa s (fold_left (tun_read (s_up s)) (chunks (length pkts) (N.to_nat (c_tun (s_cfg s))) pkts) (s_peers s, s_acc s))
+  | ETunErr pkts =>
       with_pa s (fold_left (tun_read (s_up s)) (chunks (length pkts) (N.to_nat (c_tun (s_cfg s))) pkts) (s_peers s, s_acc s))
   | ENet ds =>
       if negb (s_up s) then s else
